@@ -48,6 +48,7 @@ def make_registry():
     reg = registry()
     tm.install(reg)
     cm.install(reg)
+    _install_grad_mode_model(reg)
     for c in CONTRACTS:
         reg.add_contract(c)
     for q in (f"{OM}:ObjectBase.obj_type", f"{CN}:BaseConstraints.constraints", f"{OM}:ObjectPixelated.num_slices",
@@ -385,6 +386,54 @@ def objprop_requires(s):
 
 C_OBJPROP = Contract(f"{OM}:ObjectPixelated.obj.fget", setup=objprop_setup,
                      requires=lambda s: objprop_requires(s), ensures=objprop_ensures)
+
+
+# ---- the same getter on an object WITH A PAST (round-5 seeded change C10_J: the constrained object was memoised under no_grad, keyed
+# on the raw parameter only, so a read after a change of constraints / object type / mask returned the object constrained under the
+# OLD settings).  The setup performs a first read through the real getter under other settings, with autograd on or off, then puts
+# the settings of this case in place; the claims are the ones of the fresh-object contract.
+def _install_grad_mode_model(reg):
+    import torch
+
+    def is_grad_enabled(interp):
+        g = interp.ctx.ghost.get("grad_enabled")
+        if g is None:
+            return torch.is_grad_enabled()
+        return bool(g)  # forks the path: the reader may run with or without autograd
+
+    reg.models[torch.is_grad_enabled] = is_grad_enabled
+
+
+def objprop_hist_setup(ctx):
+    s = objprop_setup(ctx)
+    ctx.ghost["grad_enabled"] = ctx.fresh("grad_enabled_during_the_reads", "bool")
+    s.case = (s.case or "") + ",second-read-after-a-change-of-constraints"
+    s.first_read_done = False
+    return s
+
+
+def objprop_hist_requires(s):
+    reqs = objprop_requires(s)
+    if s.mode != "verify" or s.first_read_done:
+        return reqs
+    s.first_read_done = True
+    ctx, me = s.ctx, s.self
+    from pyvc.registry import Contract as _C
+    for lab, t in _C.labelled(C_OBJPROP_HIST, reqs):
+        ctx.assume(t)  # the first read happens on a well-formed object as well
+    getter = resolve(f"{OM}:ObjectPixelated.obj").fget
+    final = dict(me.fields["_constraints"])
+    other = dict(final)
+    other.update(identical_slices=not final["identical_slices"], apply_fov_mask=not final["apply_fov_mask"],
+                 positivity=not final.get("positivity", True))
+    me.fields["_constraints"] = other
+    ctx.interp.call(getter, [me], {})  # first read under other settings; its result is dropped (what it leaves behind is the point)
+    me.fields["_constraints"] = final
+    return reqs
+
+
+C_OBJPROP_HIST = Contract(f"{OM}:ObjectPixelated.obj.fget", setup=objprop_hist_setup,
+                          requires=lambda s: objprop_hist_requires(s), ensures=objprop_ensures)
 
 
 # ================================================================================================================
@@ -1126,7 +1175,7 @@ def dip_setup(ctx):
 C_DIPPROBE = Contract(f"{PM}:ProbeDIP.probe.fget", setup=dip_setup, ensures=pprobe_ensures)
 PROBE_DISPATCH = [C_DISP, C_PPROBE, C_DIPPROBE]
 
-CONTRACTS = AHC_ALL + [C_OBJPROP, C_TOM, C_GS, C_AW, C_IPW] + BOOKKEEPING + [C_SIP, C_RECON10] + PROBE_DISPATCH
+CONTRACTS = AHC_ALL + [C_OBJPROP, C_OBJPROP_HIST, C_TOM, C_GS, C_AW, C_IPW] + BOOKKEEPING + [C_SIP, C_RECON10] + PROBE_DISPATCH
 
 # ================================================================================================================
 # property-level lemmas (from the contract statements alone)
